@@ -20,9 +20,11 @@ import (
 type cliOp struct {
 	kind int
 	name string
+	fd   int32 // base descriptor; 0 = 3
 }
 
-// cliGuest: _start performs the operations on descriptor 3, ignoring their results, then proc_exit(0).
+// cliGuest: one exported function op<i> per operation (on the operation's base descriptor, results
+// ignored); _start performs them all, then proc_exit(0).
 func cliGuest(ops []cliOp) []byte {
 	m := &wasmb.Module{}
 	i32, i64 := wasmb.I32, wasmb.I64
@@ -48,27 +50,37 @@ func cliGuest(ops []cliOp) []byte {
 	}
 	// iovec at 0x100 -> "x" at 0x110
 	datas = append(datas, wasmb.Data{Offset: wasmb.ConstI32(0x100), Bytes: []byte{0x10, 0x01, 0, 0, 1, 0, 0, 0}}, wasmb.Data{Offset: wasmb.ConstI32(0x110), Bytes: []byte("x")})
-	for _, op := range ops {
+	var opFns []uint32
+	for i, op := range ops {
+		c := &wasmb.Code{}
+		fd := op.fd
+		if fd == 0 {
+			fd = 3
+		}
 		p, l := str(op.name)
 		switch op.kind {
 		case 0:
-			c.I32Const(3).I32Const(p).I32Const(l).Call(mkdir).Drop()
+			c.I32Const(fd).I32Const(p).I32Const(l).Call(mkdir).Drop()
 		case 1: // create / truncate and write
-			c.I32Const(3).I32Const(0).I32Const(p).I32Const(l).I32Const(1 | 8).I64Const(0x3fffffff).I64Const(0x3fffffff).I32Const(0).I32Const(0x200).Call(open).Drop()
+			c.I32Const(fd).I32Const(0).I32Const(p).I32Const(l).I32Const(1 | 8).I64Const(0x3fffffff).I64Const(0x3fffffff).I32Const(0).I32Const(0x200).Call(open).Drop()
 			c.I32Const(0x200).I32Load(0).I32Const(0x100).I32Const(1).I32Const(0x208).Call(write).Drop()
 		case 2:
-			c.I32Const(3).I32Const(p).I32Const(l).Call(unlink).Drop()
+			c.I32Const(fd).I32Const(p).I32Const(l).Call(unlink).Drop()
 		case 3:
-			c.I32Const(3).I32Const(p).I32Const(l).Call(rmdir).Drop()
+			c.I32Const(fd).I32Const(p).I32Const(l).Call(rmdir).Drop()
 		case 4:
 			q, ql := str(op.name + ".moved")
-			c.I32Const(3).I32Const(p).I32Const(l).I32Const(3).I32Const(q).I32Const(ql).Call(rename).Drop()
+			c.I32Const(fd).I32Const(p).I32Const(l).I32Const(fd).I32Const(q).I32Const(ql).Call(rename).Drop()
 		case 5:
-			c.I32Const(3).I32Const(0).I32Const(p).I32Const(l).I64Const(7000000000).I64Const(7000000000).I32Const(5).Call(settimes).Drop()
+			c.I32Const(fd).I32Const(0).I32Const(p).I32Const(l).I64Const(7000000000).I64Const(7000000000).I32Const(5).Call(settimes).Drop()
 		case 6: // open for writing without O_CREAT / O_TRUNC, then write
-			c.I32Const(3).I32Const(0).I32Const(p).I32Const(l).I32Const(0).I64Const(0x3fffffff).I64Const(0x3fffffff).I32Const(0).I32Const(0x200).Call(open).Drop()
+			c.I32Const(fd).I32Const(0).I32Const(p).I32Const(l).I32Const(0).I64Const(0x3fffffff).I64Const(0x3fffffff).I32Const(0).I32Const(0x200).Call(open).Drop()
 			c.I32Const(0x200).I32Load(0).I32Const(0x100).I32Const(1).I32Const(0x208).Call(write).Drop()
 		}
+		opFns = append(opFns, m.AddFunc(nil, nil, nil, c.B, fmt.Sprintf("op%d", i)))
+	}
+	for _, f := range opFns {
+		c.Call(f)
 	}
 	c.I32Const(0).Call(exit)
 	m.AddFunc(nil, nil, nil, c.B, "_start")
